@@ -453,6 +453,8 @@ pub struct World {
     pub prog: crate::program::Program,
     pub seen: Vec<Vec<usize>>,
     pub tmp_guards: Vec<GEntry>,
+    pub tmp_tokens: Vec<u64>,
+    pub tmp_seq: u64,
     pub inflight_guard_uids: Vec<u32>,
     pub payload_ctr: u64,
     pub discarded: Vec<u32>,
